@@ -98,10 +98,15 @@ func partition(c *mon.Ctx, m *ref.TSPacket) {
 	}
 }
 
+var slot packet.Packet
+
 func setPayload(c *mon.Ctx, m *ref.TSPacket, n int, r *gen.Rand) {
 	raw := m.Bytes()
-	p := packet.Packet(raw)
-	orig := p
+	// every case is loaded into the same packet object, the way a muxer re-uses its packet buffers:
+	// what an earlier SetPayload learnt about the previous occupant must not matter
+	p := &slot
+	*p = packet.Packet(raw)
+	orig := *p
 	data := r.Bytes(n)
 	dsnap := append([]byte{}, data...)
 	cnt, err := p.SetPayload(data)
@@ -119,8 +124,8 @@ func setPayload(c *mon.Ctx, m *ref.TSPacket, n int, r *gen.Rand) {
 	afc := m.Hdr[3] >> 4 & 3
 	if afc == 2 {
 		c.Count("setpayload.refused_af_only")
-		if err == nil || p != orig {
-			c.Fail("setpayload:af-only-not-refused", fmt.Sprintf("SetPayload on an adaptation-field-only packet returned %d, %v and changed the packet: %v", cnt, err, p != orig), w("", nil))
+		if err == nil || *p != orig {
+			c.Fail("setpayload:af-only-not-refused", fmt.Sprintf("SetPayload on an adaptation-field-only packet returned %d, %v and changed the packet: %v", cnt, err, *p != orig), w("", nil))
 		}
 		return
 	}
@@ -170,7 +175,7 @@ func setPayload(c *mon.Ctx, m *ref.TSPacket, n int, r *gen.Rand) {
 		}
 	}
 	copy(want[188-k:], data[:k])
-	if p != want {
+	if *p != want {
 		d := ref.FirstDiff(p[:], want[:])
 		sig := "setpayload:bytes/"
 		switch {
@@ -187,7 +192,7 @@ func setPayload(c *mon.Ctx, m *ref.TSPacket, n int, r *gen.Rand) {
 	}
 	// reading the payload back
 	back, e1 := p.Payload()
-	back2, e2 := packet.Payload(&p)
+	back2, e2 := packet.Payload(p)
 	if e1 != nil || e2 != nil || !bytes.Equal(back, data[:k]) || !bytes.Equal(back2, data[:k]) {
 		c.Fail("setpayload:readback", fmt.Sprintf("Payload() after SetPayload returned %d / %d bytes (%v, %v), stored %d", len(back), len(back2), e1, e2, k), w("", &want))
 	}
@@ -449,6 +454,35 @@ func run(c *mon.Ctx) {
 			}
 		}
 		c.Class(fmt.Sprintf("payload-copies/victim=%d", victim))
+	})
+	// the same packet object holds, one after the other, two packets that differ only in the length of an
+	// optional field (same flags byte): the capacity is the second packet's
+	c.Floor("slot_reuse.same_flags_other_layout", 1000)
+	c.Stream("slot-reuse", c.N(3000, 1500000), func(i int, r *gen.Rand) {
+		L := 20 + r.Intn(163)
+		a := ref.GenTSPacket(r, 3, L)
+		b := a
+		b.Hdr[1], b.Hdr[2] = r.Byte(), r.Byte()
+		b.Payload = r.Bytes(len(a.Payload))
+		if r.Bool() {
+			v := r.Bytes(r.Intn(L / 2))
+			w := r.Bytes(r.Intn(L / 2))
+			a.AF.TPD, b.AF.TPD = &v, &w
+		} else {
+			v := r.Bytes(r.Intn(L / 2))
+			w := r.Bytes(r.Intn(L / 2))
+			a.AF.Ext, b.AF.Ext = &v, &w
+		}
+		if a.AF.Size() > L || b.AF.Size() > L {
+			return
+		}
+		c.Count("slot_reuse.same_flags_other_layout")
+		setPayload(c, &a, r.Intn(201), r)
+		capB := 183 - b.AF.Size()
+		for _, n := range append(lengths(capB), 200) {
+			setPayload(c, &b, n, r)
+			setPayload(c, &a, r.Intn(201), r)
+		}
 	})
 	c.Stream("creation", c.N(5000, 4000000), func(i int, r *gen.Rand) { creation(c, r) })
 }
